@@ -895,9 +895,12 @@ impl<S: VhostUserBackendReqHandler> BackendReqHandler<S> {
         // If Bit 8 is unset, the data must contain a file descriptor.
         let has_fd = (msg.value & 0x100u64) == 0;
 
+        // With the invalid FD flag set the message must not carry any file descriptor at all,
+        // not just "not exactly one".
+        let no_files = files.as_ref().map_or(true, |files| files.is_empty());
         let file = take_single_file(files);
 
-        if has_fd && file.is_none() || !has_fd && file.is_some() {
+        if has_fd && file.is_none() || !has_fd && !no_files {
             return Err(Error::InvalidMessage);
         }
 
